@@ -738,6 +738,37 @@ func (g *gen) cands(s *Sch, depth int) []*J {
 		return append([]*J{out[0], jNull()}, out[1:]...)
 	case "id":
 		return g.cands(s.Elem, depth)
+	case "recv":
+		lc := g.cands(s.Elem, depth+1)
+		good := lc[0]
+		bad := jInt(7)
+		if len(lc) > 1 {
+			bad = lc[len(lc)-1]
+		}
+		vs := []*J{good, bad, jNull(), jArr(), jArr(good), jArr(good, jArr(good)), jArr(jArr(jArr())), jArr(bad), jArr(good, jNull()),
+			jArr(jArr(good, bad)), jObj().with("val", good), jObj().with("val", jArr(good)), jArr(jObj().with("val", good)),
+			jArr(jObj().with("val", jArr(good))), jArr(jArr(jArr(good)))}
+		for i, c := range lc {
+			if i > 0 && i < 6 {
+				vs = append(vs, c, jArr(c))
+			}
+		}
+		var out []*J
+		switch s.Kind {
+		case "root":
+			out = vs
+		case "field":
+			for _, c := range vs {
+				out = append(out, jObj().with("val", c))
+			}
+			out = append(out, jObj(), jObj().with("val", good).with("zz", jInt(1)), good, jArr(good), jNull())
+		default:
+			for _, c := range vs {
+				out = append(out, jArr(c))
+			}
+			out = append(out, jArr(), jArr(good, jArr(good)), good, jObj().with("val", good), jNull())
+		}
+		return out
 	case "lazy":
 		// the inner schema's candidates, and values of every other JSON kind (a lazy schema whose inner schema is
 		// never consulted accepts them all)
@@ -996,6 +1027,12 @@ func corpusSchemas() []*Sch {
 		&Sch{K: "obj", Mode: "strip", Fields: []Field{{"a", str()}, {"b", opt(str())}}, Ops: []ObjOp{{}, {Req: true, Keys: []string{"a"}}}},
 		&Sch{K: "obj", Mode: "strict", Fields: []Field{{"a", str()}, {"b", nul(str())}}, Ops: []ObjOp{{Req: true, Keys: []string{"b"}}, {}, {Req: true, Keys: []string{"nosuch", "a"}}}},
 		lazy("--", &Sch{K: "obj", Mode: "strip", Fields: []Field{{"b", opt(str())}}, Ops: []ObjOp{{Req: true}}}),
+		// recursive schemas: the Lazy's reference must name the schema it resolves to, which is the root only for "root"
+		&Sch{K: "recv", Kind: "root", Elem: str()},
+		&Sch{K: "recv", Kind: "field", Elem: str()},
+		&Sch{K: "recv", Kind: "slice", Elem: str(min2)},
+		&Sch{K: "recv", Kind: "field", Elem: &Sch{K: "bool"}},
+		&Sch{K: "recv", Kind: "slice", Elem: &Sch{K: "enum", Strs: []string{"a", "b"}}},
 		// Map: the key schema must reach the document (propertyNames)
 		&Sch{K: "map", Key: str(Ck{Op: "min", N: 2}), Elem: intS("int")},
 		&Sch{K: "map", Key: str(), Elem: intS("int"), Cks: []Ck{min2}},
